@@ -33,9 +33,14 @@ entry("C08", modules=["contracts.c08_mps"],
       E1=[f"{_C08}::parse_cur_orthog", f"{_C08}::TensorNetwork1DFlat.left_canonize_site",
           f"{_C08}::TensorNetwork1DFlat.right_canonize_site", f"{_C08}::TensorNetwork1DFlat.left_canonicalize",
           f"{_C08}::TensorNetwork1DFlat.right_canonicalize", f"{_C08}::MatrixProductState.shift_orthogonality_center",
-          f"{_C08}::TensorNetwork1DFlat.calc_current_orthog_center", f"{_C08}::MatrixProductState.canonicalize"],
+          f"{_C08}::TensorNetwork1DFlat.calc_current_orthog_center", f"{_C08}::MatrixProductState.canonicalize",
+          f"{_C08}::MatrixProductState.swap_sites_with_compress", f"{_C08}::MatrixProductState.swap_site_to",
+          f"{_C08}::MatrixProductState.compress_site", f"{_C08}::MatrixProductState.singular_values",
+          f"{_C08}::MatrixProductState.magnetization", f"{_C08}::MatrixProductState.partial_trace_to_dense_canonical"],
       TRUSTED=["leaf: tensor_canonize_bond(T1,T2) leaves T1 an isometry towards T2 and touches no other tensor (QR); "
                "checked at run time by the C08 drivers",
+               "leaf: Tensor.split(absorb) of a two-site tensor leaves the non-absorbing factor isometric (left: the right "
+               "factor, right: the left factor, both/unspecified: neither) [C05]; tensor_compress_bond likewise",
                "leaf: count_canonized returns (lo, ro) such that the lo leading sites are left isometries, the ro trailing "
                "sites right isometries and lo+ro <= L-1 (numerical test inside quimb)"],
       ASSUMPTIONS=["open boundary chains (cyclic=False); bra=None; normalize=False in the sweep helpers",
@@ -83,3 +88,102 @@ entry("C04", modules=["contracts.c01_den"],
       EXPLANATION="E1 (den domain): strip_exponent, distribute_exponent, equalize_norms (loop invariant) and the "
                   "redistribution inside maybe_unwrap preserve the denoted value exactly and leave the promised form "
                   "(tensor norm == value, exponent == new_exponent / 0 after redistribution).")
+_EVO = "quimb/evo.py"
+entry("C18", modules=["contracts.c18_evo"],
+      E1=[f"{_EVO}::_calc_evo_eq", f"{_EVO}::Evolution.__init__", f"{_EVO}::Evolution._setup_solved_ham",
+          f"{_EVO}::Evolution._start_integrator", f"{_EVO}::Evolution._setup_callback",
+          f"{_EVO}::Evolution._update_to_expm_ket", f"{_EVO}::Evolution._update_to_solved_ket",
+          f"{_EVO}::Evolution._update_to_solved_dop", f"{_EVO}::Evolution._update_to_integrate",
+          f"{_EVO}::Evolution.update_to", f"{_EVO}::Evolution.at_times", f"{_EVO}::Evolution.t", f"{_EVO}::Evolution.pt"],
+      PROVIDERS=["contracts.c18_evo.provider_support_table"],
+      TRUSTED=["leaf: expm_multiply(c*H, v) = exp(c H) v, acting from the left only (on a density operator that is "
+               "exp(-i tau H) rho, not the von Neumann flow)",
+               "leaf: spectral theorem for (l, V) = eigh(H): V diag(explt(l,tau)) V^dag psi = exp(-i tau H) psi and "
+               "V (diag(lt) (V^dag rho V) diag(conj lt)) V^dag = exp(-i tau H) rho exp(+i tau H); explt(l,tau) = exp(-i tau l); "
+               "ldmul / rdmul multiply by a diagonal from the left / right",
+               "group law of the one-parameter groups Uact / Uconj / Flow: G(a, G(b, x)) = G(a+b, x) (ground instances)",
+               "leaf: scipy complex_ode.integrate(t) moves (t, y) to time t along the flow of the right-hand side it was "
+               "built with; set_initial_value / set_integrator / set_solout store their arguments",
+               "leaf: qu() / qarray() / toarray() change the representation, not the denoted state; y.reshape(d,-1) of the "
+               "ravelled state is the state; functools.lru_cache(1) wrapper denotes the wrapped Hamiltonian function",
+               "leaf: Try2Then3Args(fn)(t, p, H) calls fn(t, p) or fn(t, p, H) exactly once with the same t, p",
+               "leaf: iterating / unpacking a matrix yields its rows (ValueError unless it has exactly two rows); "
+               "progbar(ts) iterates ts unchanged; continuous_progbar is a plain context manager",
+               "fdx oracle: scipy.linalg.expm and numpy.linalg.eigh on 2x2 / 3x3 Hermitian matrices"],
+      ASSUMPTIONS=["kinds enumerated: method in {solve, integrate, expm, 'bogus'}; state in {ket, density operator}; "
+                   "Hamiltonian in {dense qarray, sparse csr, (evals, evecs) tuple, [evals, evecs] list, scipy "
+                   "LinearOperator, time-dependent callable returning a dense (or sparse) matrix}; int_stop None | callable; "
+                   "compute None | callable | dict of two callables; progbar False | True. quimb Lazy, plain ndarray and "
+                   "coo/bsr Hamiltonians are outside the table (bounded drivers only)",
+                   "times are reals; the Hilbert-space dimension d >= 1 is symbolic in E1 (d = 2 takes the row-unpacking "
+                   "path); the fdx provider runs the real constructor at d = 2 and d = 3",
+                   "the dynamics itself (ODE integration accuracy, expm accuracy) is not proved: bounded drivers"],
+      BOUNDED_FOR={"Evolution.__init__": ["Evolution", "evolution"], "Evolution._setup_solved_ham": ["solve"]},
+      EXPLANATION="E1: support table of Evolution.__init__ by kind enumeration (96 combinations x own-raise paths): the "
+                  "constructor raises or installs an update method whose own precondition covers (state kind, Hamiltonian "
+                  "kind), the _method string says 'integrate' iff the integrating method is installed (so the t / pt "
+                  "properties read the field that method maintains), time/state fields are initialised (I(evo) at t0); "
+                  "helpers _setup_solved_ham (stored system is the eigendecomposition, pe0 = V^dag p0 [V]), "
+                  "_start_integrator (equation matches (state, time dependence), built from the given Hamiltonian, starts "
+                  "at (ravel p0, t0), solout forwards (t, y, ham) and returns the stop verdict), _calc_evo_eq (full table), "
+                  "_setup_callback (closures executed symbolically: every compute function once per step with (t, pt, ham); "
+                  "the integration callback hands over qarray(y.reshape(d,-1)) = what pt reports). Time algebra with an "
+                  "uninterpreted one-parameter group: _update_to_solved_ket/dop use t - t0 (absolute), _update_to_expm_ket "
+                  "uses t - self.t then sets _t = t (incremental): pt == U(t - t0) p0 and t' == t after every update, "
+                  "two-sided for density operators; update_to dispatches exactly once; at_times (loop invariant, symbolic "
+                  "length): the j-th yield is the state at ts[j], one yield per requested time. fdx: the real constructor on "
+                  "all 2 x 4 x 2 x 6 combinations + one step vs scipy.linalg.expm, and _calc_evo_eq on its 16 inputs.")
+entry("C07", modules=["contracts.c07_circuit"],
+      PROVIDERS=["contracts.c07_circuit.provider_gates", "contracts.c07_circuit.provider_cache"],
+      TRUSTED=["E2: sympy 1.14 polynomial arithmetic over Q(i) (Poly, domain QQ_I), expand_trig, conjugate of expressions "
+               "in real symbols; autoray dispatch to the functions registered for backend 'sympy' (complex, stack, array, "
+               "tensordot, transpose, einsum, reshape: thin exact wrappers over sympy / numpy object arrays); cotengra "
+               "contracts the ten tensors of su4_gate_param_gen through those wrappers",
+               "E2: the normal form modulo {s_k^2 + c_k^2 - 1} decides identities of trigonometric polynomials for all "
+               "real parameters (disjoint-variable Groebner basis; real points of a product of circles are Zariski dense)",
+               "E2: the textbook table in contracts/c07_circuit.py::_textbook (written from the defining formulas: "
+               "rotations exp(-i t/2 P), controlled-U with the first listed qubit as control, Google fSim / general fSim, "
+               "qiskit XXPlusYY / XXMinusYY with qubit 0 = first listed qubit, Vatan-Williams SU(4) circuit, qsim "
+               "x_1_2 / y_1_2 / hz_1_2); its bit-order convention is checked natively on Circuit + CX (8 cases)",
+               "E4: leaf summaries by name: validator _maybe_init_storage, invalidator clear_storage, stamp "
+               "_sample_n_gates, counter num_gates = len(_gates), state _psi; their bodies are checked structurally "
+               "(cache-leaf-* obligations)",
+               "E4 / C03: methods of the state network without trailing underscore do not modify it (except the declared "
+               "apply_to_arrays, add_tag, drop_tags, retag_all, randomize); in-place operations squeeze_, astype_, "
+               "gauge_all_simple_, add_tag, apply_to_arrays, view_as_, view_like_ change the representation, not the "
+               "denoted state (C04)"],
+      ASSUMPTIONS=["E2: float literals of the builders are exact dyadic rationals, except roundings of closed forms, which "
+                   "are replaced by the closed form when within 1 ulp (u2_gate_param_gen: 2**0.5 -> sqrt(2); constant "
+                   "arrays: +-0.7071067811865475/6 -> +-sqrt(2)/2); every substitution is listed in the obligation detail",
+                   "E2: parameters are real; one obligation per registered gate name; multi-controlled gates built by "
+                   "build_controlled_gate_htn / Gate.build_mpo from a unitary target are not covered here (C06, bounded)",
+                   "E4 R1: calls on objects other than self do not apply gates to self unless self is passed as an argument; "
+                   "unresolvable self.<attr>(...) callables (to_backend, methods an abstract base expects from subclasses) "
+                   "are assumed pure and listed in the census obligation",
+                   "E4 R1/R2: objects reached through self's cache containers (the sub-circuits stored by "
+                   "sample_gate_by_gate) are owned by the cache: nobody else applies gates to them, their cache is "
+                   "covered by valid(self)",
+                   "E4 R2: a generator method called without `yield from` runs to completion inside the caller (its "
+                   "yields are not suspension points of the caller)",
+                   "E4 R3: CircuitBase.apply_to_arrays(fn) is representation-only: fn converts backend / dtype and "
+                   "preserves values (every call site in the package does); with a value-changing fn the parameters "
+                   "change while cache and gate record stay (observed natively: amplitude stays at the cached value)",
+                   "E4 R3: constructors are exempt (the object is born invalid: stamp -1, checked by R4); exceptions "
+                   "raised half-way through a mutator are not covered (bounded drivers: a rejected gate)",
+                   "E4 R5 (name-level): a variable named in the key expression is taken to be captured by the key; "
+                   "representation-only query arguments, not required in keys: optimize, backend (route / library), dtype "
+                   "(precision; floats are reals), simplify_sequence / seq, equalize_norms / simplify_equalize_norms "
+                   "(value-preserving simplifications, C04), simplify_atol / atol (simplifier tolerance: an approximation "
+                   "knob -- conditionals cached under one tolerance or dtype are reused under another), progbar",
+                   "the MPS `sample` generators hold no cache field; that they keep sampling the state of the first "
+                   "next() after later gates (a snapshot) is outside the cache typestate: bounded drivers"],
+      EXPLANATION="E2: the real builders of circuit/gates.py (loaded from the source text) executed on sympy symbols "
+                  "through autoray; U^dag U = I and U = textbook decided for all real parameters by exact normal forms of "
+                  "trigonometric polynomials (SU4 with 15 parameters included); every constant gate array recognised in "
+                  "closed form (1 ulp) and checked exactly; CX bit order checked natively. E4: query-cache typestate by "
+                  "reflection over every method of every class of circuit/*.py deriving from CircuitBase, in every "
+                  "subclass context (dynamic dispatch of self / super / properties resolved through the MRO): R1 cache "
+                  "accesses dominated by the validator, R2 valid havoc'd at yield, R3 mutators end invalidated (append to "
+                  "the gate list counts: the validator compares a gate counter; the list never shrinks), R4 copy / "
+                  "constructor write the cache fields atomically, R5 cache keys cover the data dependences of the cached "
+                  "value; failing obligations carry a native replay executed on the real classes.")
